@@ -697,6 +697,8 @@ def t_invert(eng, st, x, m, node):
   # the defining equation holds only when an inverse exists (in code mode `implicit` above assumes exactly that)
   st.assume(z3.Implies(m > 0, z3.And(r >= 0, r < m)), z3.Implies(z3.And(m != 0, g == 1), x * r == 1 + m * k),
             z3.Implies(m == 1, r == 0))
+  if st.__dict__.get("cong_mod") is not None and not st.spec:
+    eng.taint_value(st, r)     # congruence mode: the inverse is a residue; comparisons on it are arbitrary
   return r
 
 
